@@ -231,9 +231,14 @@ def judgeJson (conf : Bool) (rows : List J) (out : List String) : String :=
         | some i => s!"known json-key-beyond-preview-dropped row {i} has a key the inferred schema has no place for"
         | none => "ok"
   else if o.status == "err:run" then
-    match firstFail (jsonRowFits o.names o.tys) rows with
-    | some _ => "ok"                      -- a row cannot be represented in the reported schema: an error is right (C24)
-    | none => "bad error-on-a-file-whose-rows-all-fit-the-schema"
+    -- an error is right (C24) when a row BEYOND the preview cannot be represented in the reported schema;
+    -- the schema inferred from the previewed rows must accept those rows
+    match firstFail (jsonRowFits o.names o.tys) (rows.take jsonPreviewRows) with
+    | some i => s!"bad error-on-previewed-row {i} which-the-inferred-schema-does-not-accept"
+    | none =>
+      match firstFail (jsonRowFits o.names o.tys) rows with
+      | some _ => "ok"
+      | none => "bad error-on-a-file-whose-rows-all-fit-the-schema"
   else if o.status == "err:create" then
     if (rows.take jsonPreviewRows).all (fun r => match r with | .obj _ _ => true | _ => false) then "bad schema-inference-failed"
     else "ok"
@@ -260,11 +265,14 @@ def judgeCsv (conf : Bool) (f : CsvFile) (out : List String) : String :=
       | none => "ok"
   else if o.status == "err:run" then
     if ragged.isSome then "ok"
-    else match firstFail (fun (r : List Cell) => all2 (fun t c => cellFits t c) o.tys r) f.rows with
-      | some _ => "ok"
-      | none => "bad error-on-a-file-whose-rows-all-fit-the-schema"
+    else match firstFail (fun (r : List Cell) => all2 (fun t c => cellFits t c) o.tys r) (f.rows.take previewRows) with
+      | some i => s!"bad error-on-previewed-row {i} which-the-inferred-schema-does-not-accept"
+      | none =>
+        match firstFail (fun (r : List Cell) => all2 (fun t c => cellFits t c) o.tys r) f.rows with
+        | some _ => "ok"
+        | none => "bad error-on-a-file-whose-rows-all-fit-the-schema"
   else if o.status == "err:create" then
-    if (firstRagged f.ncols 0 (f.rows.take previewRows)).isSome then "ok" else "bad schema-inference-failed"
+    if (firstRagged f.ncols 0 (f.rows.take previewRows)).isSome || f.dupHeader then "ok" else "bad schema-inference-failed"
   else s!"bad {o.status}"
 
 end Octo.Drv.Files
